@@ -45,3 +45,70 @@ def destructors_silent(prog, cg, eff, chk, rid):
     chk.ok(rid, 'positive control: ~sqlite_transaction is seen to issue ROLLBACK (excepted: it ends a mutator\'s '
                 'transaction)', locstr(guard[0].node))
     return n
+
+
+def _secondary_tables():
+    """1.x tables keyed by a track id that are not the Track table itself: their rows exist only if some
+    operation has written them (spec/domains.json: `<table>.id` in domain track)."""
+    import json
+    import os
+    d = json.load(open(os.path.join(os.path.dirname(os.path.dirname(os.path.dirname(os.path.abspath(__file__)))),
+                                    'spec', 'domains.json')))
+    out = set()
+    for key, dom in d['columns'].items():
+        m = re.match(r'^1:(\w+)\.id$', key)
+        if m and dom == 'track' and m.group(1) != 'track':
+            out.add(m.group(1))
+    return out
+
+
+def updates_have_rows(prog, cg, eff, chk, rid):
+    """A value written with UPDATE is lost when no row matches.  For the handle's own row (Track) a missing row
+    means a removed track and is judged elsewhere; the rows of the secondary 1.x tables (MetaData,
+    MetaDataInteger, PerformanceData) exist only if something wrote them: a track imported but not analysed has
+    no PerformanceData row, a cleared field may have no MetaData row.  So every UPDATE of such a table is
+    preceded, in the same function, by an INSERT [OR IGNORE / OR REPLACE] into it (the row is made first), or is
+    followed by a test of rows_modified()."""
+    sec = _secondary_tables()
+    if len(sec) < 3:
+        raise AnalysisBroken('row-guarantee rule: secondary tables not found in spec/domains.json (%s)' % sorted(sec))
+    n = 0
+    writers = 0
+    for f in prog.functions.values():
+        if f.body is None or f.is_pattern or not prog.in_repo(f.file) or '/schema/' in (f.file or ''):
+            continue
+        ss = eff.sites(f)
+        for i, s_ in enumerate(ss):
+            st = s_.stored_in
+            if st is None or (getattr(st, 'table', None) or '').lower() not in sec:
+                continue
+            if st.kind in ('insert', 'delete'):
+                writers += 1
+            if st.kind != 'update':
+                continue
+            n += 1
+            chk.analysed(f)
+            t = st.table
+            line = (s_.node.get('loc') or [None, 0])[1]
+            made = [x for x in ss[:i] if x.stored_in is not None and x.stored_in.kind == 'insert'
+                    and (x.stored_in.table or '').lower() == t.lower()]
+            tested = False
+            for x in walk(f.body):
+                if x.get('kind') == 'CXXMemberCallExpr' and strip(children(x)[0]).get('name') == 'rows_modified':
+                    if ((x.get('loc') or [None, 0])[1] or 0) >= (line or 0):
+                        tested = True
+            inst = '%s: UPDATE %s at %s has a row to update' % (
+                (f.qualname or '').replace('djinterop::engine::', ''), t, locstr(s_.node))
+            if made or tested:
+                chk.ok(rid, inst + (' (row made first at %s)' % locstr(made[0].node) if made else ' (rows_modified() tested)'),
+                       locstr(s_.node))
+            else:
+                chk.violation(rid, '%s|UPDATE %s without a row guarantee' % (
+                    (f.qualname or '').replace('djinterop::engine::', ''), t), locstr(s_.node),
+                    '%s: not so - no INSERT into %s precedes it in this function and rows_modified() is not tested '
+                    'after it: when the track has no %s row for this key (never analysed, field cleared, row removed by '
+                    'another setter) the statement matches nothing, the call returns normally and the value is '
+                    'lost' % (inst, t, t))
+    if writers < 4:
+        raise AnalysisBroken('row-guarantee rule: the writers of the secondary tables were not found (%d)' % writers)
+    return n
